@@ -1252,3 +1252,217 @@ func wellFormed(in *Input) (bool, string) {
 	}
 	return true, ""
 }
+
+// ---------------------------------------------------------------------------------------------------------------
+// size classes: valid bodies derived from the seeds that cross the decoders' internal thresholds — the request-wide
+// 1000-point flush (entries per stream / samples per series / spans per batch in 999..2500, alone and after a first
+// series of 500 so that the flush falls INSIDE a series) and the 1 MiB chunk flush.  They are run in "shared batch"
+// workers: another client's valid push is already waiting in the same insert-service batch when the sized request
+// arrives, and both go to ClickHouse in one block.
+
+func sizedBody(family string, n int, lineLen int, twoSeries bool) []byte {
+	line := func(i int) string {
+		s := fmt.Sprintf("sized line %d", i)
+		if lineLen > len(s) {
+			s += strings.Repeat("x", lineLen-len(s))
+		}
+		return s
+	}
+	first := 0
+	if twoSeries {
+		first = 500 // a first stream / series of 500 entries: the 1000-point flush falls inside the second one
+	}
+	switch family {
+	case "loki_json":
+		mk := func(job string, cnt, off int) *jnode {
+			vals := make([]*jnode, cnt)
+			for i := range vals {
+				vals[i] = jA(jS(fmt.Sprint(1700000000000000000+int64(off+i))), jS(line(off+i)))
+			}
+			return jO("stream", jO("job", jS(job)), "values", jA(vals...))
+		}
+		streams := []*jnode{}
+		if first > 0 {
+			streams = append(streams, mk("sized_first", first, 0))
+		}
+		streams = append(streams, mk("sized", n, first))
+		return []byte(jO("streams", jA(streams...)).String())
+	case "loki_proto":
+		mk := func(job string, cnt, off int) *logproto.StreamAdapter {
+			st := &logproto.StreamAdapter{Labels: `{job="` + job + `"}`}
+			for i := 0; i < cnt; i++ {
+				st.Entries = append(st.Entries, &logproto.EntryAdapter{Timestamp: &logproto.Timestamp{Seconds: 1700000000, Nanos: int32(off + i)}, Line: line(off + i)})
+			}
+			return st
+		}
+		req := &logproto.PushRequest{}
+		if first > 0 {
+			req.Streams = append(req.Streams, mk("sized_first", first, 0))
+		}
+		req.Streams = append(req.Streams, mk("sized", n, first))
+		return snappy.Encode(nil, mustMarshal(req))
+	case "prom_rw":
+		mk := func(name string, cnt, off int) *prompb.TimeSeries {
+			ts := &prompb.TimeSeries{Labels: []*prompb.Label{{Name: "__name__", Value: name}, {Name: "job", Value: "sized"}}}
+			for i := 0; i < cnt; i++ {
+				ts.Samples = append(ts.Samples, &prompb.Sample{Value: float64(i), Timestamp: 1700000000000 + int64(off+i)})
+			}
+			return ts
+		}
+		req := &prompb.WriteRequest{}
+		if first > 0 {
+			req.Timeseries = append(req.Timeseries, mk("sized_first", first, 0))
+		}
+		req.Timeseries = append(req.Timeseries, mk("sized_metric", n, first))
+		return snappy.Encode(nil, mustMarshal(req))
+	case "influx":
+		var b strings.Builder
+		for i := 0; i < first+n; i++ {
+			if lineLen > 0 {
+				fmt.Fprintf(&b, "logs,host=a message=\"%s\" %d\n", line(i), 1700000000000000000+int64(i))
+			} else {
+				fmt.Fprintf(&b, "cpu,host=a usage=%d %d\n", i, 1700000000000000000+int64(i))
+			}
+		}
+		return []byte(b.String())
+	case "dd_logs":
+		items := make([]*jnode, first+n)
+		for i := range items {
+			items[i] = jO("ddsource", jS("nginx"), "hostname", jS("h1"), "message", jS(line(i)), "service", jS("svc"), "timestamp", jN(fmt.Sprint(1700000000000+int64(i))))
+		}
+		return []byte(jA(items...).String())
+	case "dd_series":
+		mk := func(name string, cnt, off int) *jnode {
+			pts := make([]*jnode, cnt)
+			for i := range pts {
+				pts[i] = jO("timestamp", jN(fmt.Sprint(1700000000+int64(off+i))), "value", jN(fmt.Sprint(i)))
+			}
+			return jO("metric", jS(name), "points", jA(pts...))
+		}
+		series := []*jnode{}
+		if first > 0 {
+			series = append(series, mk("sized.first", first, 0))
+		}
+		series = append(series, mk("sized.x", n, first))
+		return []byte(jO("series", jA(series...)).String())
+	case "dd_cf":
+		var b strings.Builder
+		for i := 0; i < first+n; i++ {
+			b.WriteString(jO("EventType", jS("fetch"), "ScriptName", jS(line(i)), "EventTimestampMs", jN(fmt.Sprint(1700000000000+int64(i)))).String())
+			b.WriteByte('\n')
+		}
+		return []byte(b.String())
+	case "otlp_logs":
+		m := otlpLogsMsg("")
+		rec := m.ResourceLogs[0].ScopeLogs[0].LogRecords[0]
+		var recs []*logspb.LogRecord
+		for i := 0; i < first+n; i++ {
+			r := proto.Clone(rec).(*logspb.LogRecord)
+			r.TimeUnixNano = 1700000000000000000 + uint64(i)
+			r.Body = &commonpb.AnyValue{Value: &commonpb.AnyValue_StringValue{StringValue: line(i)}}
+			recs = append(recs, r)
+		}
+		m.ResourceLogs[0].ScopeLogs[0].LogRecords = recs
+		return mustMarshal(m)
+	case "otlp_traces":
+		m := otlpTracesMsg("")
+		sp := m.ResourceSpans[0].ScopeSpans[0].Spans[0]
+		var spans []*tracepb.Span
+		for i := 0; i < first+n; i++ {
+			s := proto.Clone(sp).(*tracepb.Span)
+			s.SpanId = []byte(fmt.Sprintf("%08d", i))
+			s.Name = line(i)
+			spans = append(spans, s)
+		}
+		m.ResourceSpans[0].ScopeSpans[0].Spans = spans
+		return mustMarshal(m)
+	case "zipkin_json", "zipkin_ndjson":
+		spans := make([]*jnode, first+n)
+		for i := range spans {
+			spans[i] = jO("traceId", jS("0123456789abcdef0123456789abcdef"), "id", jS(fmt.Sprintf("%016x", i+1)), "name", jS(line(i)),
+				"timestamp", jN("1700000000000000"), "duration", jN("1000"), "localEndpoint", jO("serviceName", jS("svc")), "tags", jO("k", jS("v")))
+		}
+		if family == "zipkin_json" {
+			return []byte(jA(spans...).String())
+		}
+		return []byte(ndjson(spans))
+	case "elastic_bulk":
+		var lines []*jnode
+		for i := 0; i < first+n; i++ {
+			lines = append(lines, jO("index", jO("_index", jS("idx"))), jO("message", jS(line(i))))
+		}
+		return []byte(ndjson(lines))
+	case "elastic_doc":
+		return []byte(jO("message", jS(line(0)), "n", jN(fmt.Sprint(n))).String())
+	case "pprof_multipart", "pprof_binary":
+		p := pprofProfile()
+		base := p.Sample[0]
+		p.Sample = nil
+		for i := 0; i < first+n; i++ {
+			s := *base
+			s.Value = []int64{int64(i + 1), int64(i+1) * 1000}
+			p.Sample = append(p.Sample, &s)
+		}
+		if lineLen > 0 {
+			p.Function[0].Name = line(0)
+		}
+		if family == "pprof_multipart" {
+			return multipartBody("profile", "profile.pprof", pprofGz(p), true)
+		}
+		return pprofGz(p)
+	}
+	return nil
+}
+
+// GenerateSizes builds the size-class inputs (IDs start at firstID).
+func GenerateSizes(o genOpts, firstID int) []Input {
+	var out []Input
+	counts := []int{1001, 1500}
+	if o.Thorough {
+		counts = []int{999, 1000, 1001, 1500, 2500}
+	}
+	done := map[string]bool{}
+	for _, rs := range routeTable {
+		for _, ct := range rs.Variants {
+			fam := ct.Family
+			if done[fam] || fam == "health" || fam == "unsupported_ct" {
+				continue
+			}
+			done[fam] = true
+			add := func(desc string, body []byte) {
+				if body == nil {
+					return
+				}
+				in := Input{ID: firstID + len(out), Route: rs.Template, Method: rs.Method, Path: rs.Path, Family: fam, Gen: "size", Desc: desc, Body: body}
+				if rs.Query != "" {
+					in.Path += "?" + rs.Query
+				}
+				if ct.CT != "" {
+					in.Headers = [][2]string{{"Content-Type", ct.CT}}
+				}
+				out = append(out, in)
+			}
+			if fam == "elastic_doc" {
+				add("one document of 1.2 MiB", sizedBody(fam, 1, 1200*1024, false))
+				continue
+			}
+			for _, n := range counts {
+				add(fmt.Sprintf("%d entries in one stream/series/batch", n), sizedBody(fam, n, 0, false))
+				if n == 1500 || o.Thorough {
+					add(fmt.Sprintf("500 entries in a first stream/series, then %d in the second", n), sizedBody(fam, n, 0, true))
+				}
+			}
+			// crossing the 1 MiB chunk flush: 5 entries of 300 KiB each, and (metric / span protocols, whose size is
+			// counted per point) 45 000 points
+			switch fam {
+			case "prom_rw", "dd_series":
+				add("45000 points in one series (crosses the 1 MiB chunk flush)", sizedBody(fam, 45000, 0, false))
+			case "pprof_multipart", "pprof_binary":
+				add("function name of 1.2 MiB", sizedBody(fam, 2, 1200*1024, false))
+			default:
+				add("5 entries of 300 KiB (crosses the 1 MiB chunk flush)", sizedBody(fam, 5, 300*1024, false))
+			}
+		}
+	}
+	return out
+}
